@@ -41,6 +41,8 @@ type Module struct {
 	IFuncs   []string   `json:"ifuncs"`
 	Funcs    []string   `json:"funcs"`
 	Attrs    []string   `json:"attrs"`
+	// AttrBodies[i] lists the bodies of the definitions of Attrs[i] in textual order.
+	AttrBodies [][]string `json:"attrBodies"`
 	Nmds     []string   `json:"nmds"`
 	NmdNodes [][]string `json:"nmdNodes"`
 	Mds      []string   `json:"mds"`
@@ -233,7 +235,6 @@ func (r *renderer) mdAttach(refs []Ref, sep string) string {
 func Render(src []Entity) string {
 	r := &renderer{src: src, keys: Keys(src), visiting: map[*Entity]bool{}}
 	var sb strings.Builder
-	attrSeen := map[string]int{}
 	for i := range src {
 		e := &src[i]
 		key := r.keys[i]
@@ -285,10 +286,9 @@ func Render(src []Entity) string {
 		case "func":
 			r.renderFunc(&sb, e, key)
 		case "attr":
-			attrSeen[e.N]++
-			body := "nounwind"
-			if attrSeen[e.N] > 1 {
-				body = "noinline"
+			body := e.Body
+			if body == "" {
+				body = "nounwind"
 			}
 			fmt.Fprintf(&sb, "attributes %s = { %s }\n", attrID(e.N), body)
 		case "nmd":
